@@ -216,6 +216,16 @@ def run(ctx, report):
                         note='not-used elements are dropped by design: check the map usage before reading this as a defect')
             return
     cases = pipecorr.documents(rng, 400 if thorough else 80, thorough)
+    # documents in which the same loop id is matched at two different map paths (837: 2300 under 2000B and under 2000B/2000C;
+    # 278: 2000E under 2000C and under 2000D): dense conformant documents
+    import confgen
+    import docgen
+    for name in (['837.4010.X098.A1.xml', '837.5010.X222.A1.xml', '837.4010.X096.A1.xml', '278.4010.X094.A1.xml', '278.4010.X094.27.A1.xml'] * (3 if thorough else 1)):
+        try:
+            segs, d, _sel = confgen.document(rng, name, ('~', '*', ':'), n_st=1, p_seg=0.1, p_loop=0.85, max_segs=150)
+        except Exception:  # noqa
+            continue
+        cases.append(('dense', 'dense map=%s' % name, docgen.encode(segs, d, '')))
     pipecorr.run(report, ctx, rng, cases, 2, oracle, force=lambda m: m[2] == 'X')
     # XML -> X12: model vs implementation on the trees the implementation produced
     if ctx['driver_ok'] and xml_texts:
